@@ -15,6 +15,7 @@ CONSTANTS
   RegWindows = {}
   RegUsages = {}
   RegOthers = {}
+  TwoCNs = {}
   Routes = {}
   DTokens = {}
   GTokens = {}
